@@ -176,3 +176,46 @@ pub fn gen_deque(seed: u64, len: usize) -> Vec<String> {
     }
     out
 }
+
+/// Configuration component (C17): every combination of builder knobs, boundary durations,
+/// `new(n)` versus the builder, followed by `policy` and a short below-capacity history.
+pub fn gen_config(seed: u64, len: usize) -> Vec<String> {
+    let mut rng = Rng::new(seed);
+    let max_ns: u128 = 1000 * 365 * 24 * 3600 * 1_000_000_000u128;
+    let kind = if rng.chance(1, 2) { "unsync" } else { "sync" };
+    let durs: Vec<String> = vec![
+        "none".into(), "none".into(), "0".into(), "1".into(), "1000000000".into(), "20000000000".into(),
+        "10000000000".into(), max_ns.to_string(), (max_ns + 1).to_string(), (max_ns - 1).to_string(),
+        (max_ns * 3).to_string(),
+    ];
+    let caps = ["none", "0", "1", "5", "100", "1000", "4294967296", "18446744073709551615"];
+    let ctor_new = rng.chance(1, 6);
+    let cap = if ctor_new { rng.pick(&["5", "100", "1000", "0", "18446744073709551615"]) } else { rng.pick(&caps) };
+    let ttl = if ctor_new { "none".to_string() } else { durs[rng.below(durs.len() as u64) as usize].clone() };
+    let tti = if ctor_new { "none".to_string() } else { durs[rng.below(durs.len() as u64) as usize].clone() };
+    let w = if ctor_new { "none" } else { rng.pick(&["none", "none", "c1", "vmod4", "c0"]) };
+    let initcap = if ctor_new { "none" } else { rng.pick(&["none", "0", "10", "1000"]) };
+    let mut out = vec![format!(
+        "cfg kind={} cap={} w={} ttl={} tti={} hash=id initcap={} ctor={} seed={}",
+        kind, cap, w, ttl, tti, initcap, if ctor_new { "new" } else { "builder" }, seed
+    )];
+    out.push("policy".into());
+    // a short history that stays below every capacity >= 100 (lookups are then independent
+    // of the hasher, which `new` picks at random)
+    let small = matches!(cap, "none" | "100" | "1000" | "4294967296" | "18446744073709551615");
+    if small && w != "c0" {
+        for _ in 0..len {
+            let k = rng.below(8);
+            match rng.below(8) {
+                0..=2 => out.push(format!("ins {} {}", k, rng.below(12))),
+                3 | 4 => out.push(format!("get {}", k)),
+                5 => out.push(format!("has {}", k)),
+                6 => out.push("iter".into()),
+                _ => out.push(format!("inv {}", k)),
+            }
+        }
+        out.push("iter".into());
+    }
+    out.push("policy".into());
+    out
+}
